@@ -13,6 +13,8 @@ const NAME_CHARS: &[char] = &[
     '\u{4e2d}', '\u{d7ff}', '\u{e000}', '\u{ffff}', '\u{10000}', '\u{1d11e}', '\u{10ffff}', '\u{263a}',
     // invisible format characters: direction marks (Bidi_Control), joiners, soft hyphen, BOM inside a name
     '\u{200e}', '\u{200f}', '\u{202a}', '\u{202c}', '\u{202e}', '\u{2066}', '\u{2069}', '\u{61c}', '\u{200d}', '\u{ad}', '\u{feff}', '\u{2060}', 'u', 'n',
+    // typographic quotes and quote look-alikes
+    '\u{2018}', '\u{2019}', '\u{201c}', '\u{201d}', '\u{b4}', '\u{2032}', '\u{ff07}', '\u{ff02}', '\u{ab}', '\u{bb}', '`',
 ];
 
 pub fn gen_string(src: &mut Src) -> String {
